@@ -387,6 +387,16 @@ def handOver (regs : List (Nat × Bool)) (measured : Nat → Option Val) (vals :
     Nat → Option Val :=
   fun m => if hasIdx regs m then measured m else vals m
 
+/-- what the engine records after a segment, `{k: r.val for k, r in p.reg_refs.items()}`: keyed by subsystem
+INDEX (deleted subsystems included) -/
+def recordByIndex (regs : List (Nat × Bool)) (vals : Nat → Option Val) : Nat → Option Val :=
+  fun k => if hasIdx regs k then vals k else none
+
+/-- the defective variant `{k: r.val for k, r in enumerate(p.register)}` (seeded change C09-b1): keyed by the
+POSITION among the valid subsystems -/
+def recordByPosition (regs : List (Nat × Bool)) (vals : Nat → Option Val) : Nat → Option Val :=
+  fun k => ((regs.filter (·.2))[k]?).bind fun r => vals r.1
+
 def nonGaussPreps : List String := ["Bosonic", "Catstate", "DensityMatrix", "Fock", "GKP", "Ket"]
 
 /-- in a continuation the bosonic `run_prog` refuses non-Gaussian preparations when it reaches them:
@@ -449,7 +459,7 @@ def runOne (cp : Compiler) (progs : Nat → Prog) (outc : Outc) (args : List (St
         | .ok (st, t) =>
           -- self._measured_vals = {k: r.val for k, r in p.reg_refs.items()}
           .ok ({ e with prev := some cpd.regs, runIds := e.runIds ++ [i], samples := some (rowsOf (st.samples.map (·.2))),
-                        measured := fun k => if hasIdx cpd.regs k then st.vals k else none,
+                        measured := recordByIndex cpd.regs st.vals,
                         contd := e.contd || !cpd.circuit.isEmpty, mpos := st.mpos },
                { vals := setAt w.vals i st.vals, free := setAt w.free i free1, locked := setAt w.locked i true },
                t0 ++ t)
